@@ -1,18 +1,18 @@
 from props.common import run_all as run  # noqa: F401
 
-META = {
-    "claimed": True,
-    "title": "Numeric text parsing is exact: right value, or EINVAL/ERANGE, never wraparound",
-    "level_text": ("proof: strtoumax/strtoimax (ISO C, C locale, with unsigned negation modulo 2^64) and the macro logic of PARSENUM/PARSENUM_EX are modelled on checked memory; "
-                   "C16_parsenum_signed_exact / C16_parsenum_unsigned_exact / C16_parsenum_unsigned_nobounds_exact prove model = grammar spec over unbounded Z for EVERY C string, "
-                   "widths 8/16/32/64, every (min,max) in the documented domain (incl. negative bounds for unsigned targets), bases 0 and 2..36, both trailing settings - the F4 repair is "
-                   "what makes the unsigned theorem true (C16_regression_F4 keeps the old step's counterexample); C16_parsenum_float_wrapper gives the EINVAL/ERANGE conditions as iffs over "
-                   "strtod's answer (nan passes any bounds); C16_humansize_parse_exact proves the size parser equals the language digits [' '] [kMGTPE] ['B'] with value n*1000^k < 2^64; "
-                   "C16_humansize_greatest proves the formatter's output is a documented form and the greatest representable value not exceeding n, for all n < 2^64. "
-                   "Tied to the C by a translator (humansize prefix string and limits) and a correspondence run of 460 generated macro call sites (ASan/UBSan, 40k cases quick, 891k thorough)."),
-    "level_note": ("Trusted: Coq kernel; the Gallina model of glibc's strtoumax/strtoimax (Appendix A of DESIGN.md pins the probed behaviours; sampled on every run); strtod is an oracle "
-                   "(decimal->binary conversion is libc's, only the wrapper logic is proved); hand-written model of the macro logic bound by differential execution. "
-                   "Print Assumptions: closed under the global context."),
-    "trusted_base": ["Gallina model of glibc strtoumax/strtoimax in the C locale (sampled against libc each run)", "strtod treated as an oracle (value class + comparison outcomes)"],
-    "assumptions": ["signed targets: bounds lie within the target type (the interface leaves this to the caller, as the property states)"],
-}
+META = {'claimed': True,
+ 'title': 'Numeric text parsing is exact: right value, or EINVAL/ERANGE, never wraparound',
+ 'level_text': 'proof: strtoumax/strtoimax (ISO C, C locale, with unsigned negation modulo 2^64) and the macro logic of PARSENUM/PARSENUM_EX are modelled on checked memory; C16_parsenum_signed_exact '
+               '/ C16_parsenum_unsigned_exact / C16_parsenum_unsigned_nobounds_exact prove model = grammar spec over unbounded Z for EVERY C string, widths 8/16/32/64, every (min,max) in the '
+               'documented domain (incl. negative bounds for unsigned targets), bases 0 and 2..36, both trailing settings - the F4 repair is what makes the unsigned theorem true (C16_regression_F4 '
+               "keeps the old step's counterexample); floating targets: strtod is an oracle (its double enters as a bit pattern); the wrapper's EINVAL/ERANGE conditions are iffs over its answer "
+               "(C16_parsenum_float_wrapper; nan passes any bounds); double targets store strtod's value bit-exactly and meet the property (C16_parsenum_double_exact); the model's double->float "
+               'conversion is proved correctly rounded for all 2^64 patterns (C16_narrow32_correctly_rounded); for float targets the property is proved for values within +-FLT_MAX '
+               '(C16_parsenum_float32_in_type_partial) and REFUTED beyond (C16_parsenum_float_narrowing_refuted; KNOWN FINDING F13: success with +-inf / 0 stored); long double targets not modelled; '
+               "C16_humansize_parse_exact proves the size parser equals the language digits [' '] [kMGTPE] ['B'] with value n*1000^k < 2^64; C16_humansize_greatest proves the formatter's output is a "
+               'documented form and the greatest representable value not exceeding n, for all n < 2^64. 12 theorems. Tied to the C by a translator (humansize prefix string and limits) and a '
+               'correspondence run of 460 generated macro call sites (ASan/UBSan, 40k cases quick, 891k thorough).',
+ 'level_note': "Trusted: Coq kernel; the Gallina model of glibc's strtoumax/strtoimax (Appendix A of DESIGN.md pins the probed behaviours; sampled on every run); strtod is an oracle (decimal->binary "
+               "conversion is libc's, only the wrapper logic is proved); hand-written model of the macro logic bound by differential execution. Print Assumptions: closed under the global context.",
+ 'trusted_base': ['Gallina model of glibc strtoumax/strtoimax in the C locale (sampled against libc each run)', 'strtod treated as an oracle (value class + comparison outcomes)'],
+ 'assumptions': ['signed targets: bounds lie within the target type (the interface leaves this to the caller, as the property states)']}
